@@ -732,7 +732,11 @@ class FloatGen:
             c = rng.integers(3, 10)
         if self.cplx and rng.random() < 0.25:
             # real / imaginary part / conjugate of a complex intermediate (R-linear, not holomorphic)
-            return (["real", "imag", "conj"][int(rng.integers(0, 3))], self.gen(depth - 1, shp))
+            sub = self.gen(depth - 1, shp)
+            kind = ["real", "imag", "conj"][int(rng.integers(0, 3))]
+            if kind == "imag" and not np.iscomplexobj(self.val(sub)):
+                kind = "real"       # Imaginizer rejects real-valued input (ValueError by design)
+            return (kind, sub)
         if c == 3:
             return ("addc", int(rng.integers(0, 2)), [self.rnd() for _ in range(m)], self.gen(depth - 1, shp))
         if c == 4:
